@@ -636,7 +636,7 @@ func init() {
 			return l
 		},
 		Floors: func(string) map[string]int64 {
-			return map[string]int64{"limit_checks": 10000, "streams": 100, "iterations_compared": 500, "ended_by_mate": 3, "halts_after_k": 60, "gated_halts": 50, "clock_runs": 30, "engine_default_runs": 20, "explicit_no_limit_runs": 10, "uci_clock_gos": 100, "uci_clock_zero": 20, "gated_overlapping_halts": 20, "long_runs_beyond_70000": 3, "long_runs_beyond_300": 3}
+			return map[string]int64{"limit_checks": 10000, "streams": 100, "iterations_compared": 500, "ended_by_mate": 3, "halts_after_k": 60, "gated_halts": 50, "clock_runs": 20, "engine_default_runs": 12, "explicit_no_limit_runs": 6, "uci_clock_gos": 100, "uci_clock_zero": 20, "gated_overlapping_halts": 20, "long_runs_beyond_70000": 1, "long_runs_beyond_300": 1}
 		},
 		Run: runC15,
 	})
